@@ -206,11 +206,21 @@ def run_case(case, ctx):
                 h = x[i] / 4 if x[i] > 0 else None
             if h is None:
                 continue
-            want = central(h)
+            # Richardson value with an error estimate: halve the step until two successive values agree
+            # (a pole of the objective close to the point - small normalisation factors - makes the h^4 term large)
+            want, trunc = central(h), math.inf
+            for _ in range(5):
+                nxt = central(h / 2)
+                trunc, want, h = abs(nxt - want), nxt, h / 2
+                if not math.isfinite(want) or trunc <= 2e-7 * gs:
+                    break
             if not math.isfinite(want):
                 continue
+            if trunc > 2e-7 * gs:
+                ctx.count("finite_difference_did_not_settle", 1)
+                continue
             reg = regime(x[i]) if alpha_type else "-"
-            ctx.close("gradient", g, want, 2e-6 * gs + 2e-6 * abs(want),
+            ctx.close("gradient", g, want, 2e-6 * gs + 2e-6 * abs(want) + 2 * trunc,
                       f"{sig}/gradient_ne_derivative/{kind}/{'stitch' if case['stitch'] else 'nostitch'}",
                       parameter=n, at=x[i], regime=reg, histosys=case["histosys"], normsys=case["normsys"])
         regs = "".join(sorted({regime(pars[n][0]) for n, p in ref.params.items() if p.kinds <= {"normsys", "histosys"}}))
